@@ -525,6 +525,10 @@ def gen_sort_input(r, malformed):
         if items:
             items.insert(r.below(len(items) + 1), cousin(r, r.choice(items)) if kind in ("smallnum", "mixnum", "float")
                          else r.choice(items))
+    if kind in ("smallnum", "mixnum", "float"):
+        # lists that may mix ints and floats have no transitive order above 2^53 (known finding): the model sorts by
+        # insertion, which is what sort.SliceStable does only up to 20 elements - longer mixed lists would compare algorithms
+        items = items[:20]
     return ("L", items[:60])
 
 
